@@ -113,6 +113,8 @@ class E5:
                     continue
                 elif v[0] == "ok" and e["v"] == "Ok":
                     continue
+                elif v[0] == "opt" and e["v"] in ("Some", "None"):
+                    continue
                 else:
                     return TOP
                 continue
@@ -130,6 +132,8 @@ class E5:
                     v = v[1 + e["i"]] if e["i"] + 1 < len(v) else TOP
                 elif v[0] == "ok":
                     v = v[1] if e["i"] == 0 else TOP
+                elif v[0] == "opt":
+                    v = v[2] if (e["i"] == 0 and len(v) > 2 and v[1] == 1) else TOP
                 else:
                     return TOP
                 continue
@@ -261,7 +265,7 @@ class E5:
                         return ("ok", self._val(f, p, rv["ops"][0]))
                     return ("err",)
                 if adt == "std::option::Option":
-                    return ("opt", rv["vidx"])
+                    return ("opt", rv["vidx"], self._val(f, p, rv["ops"][0]) if rv["ops"] else TOP)
                 return TOP
             if rv.get("agg") == "tuple":
                 return ("tuple",) + tuple(self._val(f, p, o) for o in rv["ops"])
@@ -345,6 +349,11 @@ class E5:
                 return done(("cf", TOP, "break"))
             if a is not TOP and a[0] == "ok":
                 return done(("cf", a[1], "continue"))
+            if a is not TOP and a[0] == "tail":
+                # `handler(..)?`: the Err side is propagated (not an outcome); on the Ok side the payload is what the handler delivered
+                return done(("cf", ("tailok", a), "continue"))
+            if a is not TOP and a[0] == "mapsome":
+                return done(("cf", ("opt", 1, ("tailok", a[1])), "continue"))
             return done(("cf", TOP))
         if key == "std::ops::FromResidual::from_residual":
             return done(("err",))
@@ -376,6 +385,9 @@ class E5:
             return done(("i", 0 if argv[0][1] == 1 else 1))
         if key in ("saphyr_parser::parser::Event::empty_scalar", "saphyr_parser::parser::Event::empty_scalar_with_anchor"):
             return done(("event", "Scalar", ("empty",)))
+        if key == "std::result::Result::map" and len(argv) == 2 and argv[0] is not TOP and argv[0][0] == "tail" \
+                and "Some" in str(op_const(t["args"][1]) or ""):
+            return done(("mapsome", argv[0]))
         if key in self.handlers and key != f.key or (key in self.handlers and key == f.key):
             cargs = []
             for a in argv[1:]:
@@ -389,6 +401,10 @@ def describe_result(r):
     """('event', K) | ('tail', fn, args) | ('err',) | ('other', repr)"""
     if r is TOP:
         return ("other", "unknown")
+    if r[0] == "ok" and r[1] is not TOP and r[1][0] == "tailok":
+        return ("tail", r[1][1][1], r[1][1][2])
+    if r[0] == "mapsome":
+        return ("other", "a handler result wrapped in Some")
     if r[0] == "ok":
         x = r[1]
         if x is not TOP and x[0] == "tuple" and x[1] is not TOP and x[1][0] == "event":
